@@ -1,5 +1,6 @@
 (* C08 - StreamChunker tiles the input stream exactly, sentinels never hidden in data. *)
 From Coq Require Import List NArith Arith.
+From WP Require Import iovec.Geo iovec.GeoProofs iovec.GeoAslice hcobs.GeoChunker.
 From WP Require Import hcobs.Stuffing hcobs.EncChunks hcobs.EncChunksProofs hcobs.Chunker hcobs.ReaderProofs hcobs.ReaderFacts io.ReadN io.ReadNProofs.
 Import ListNotations.
 Open Scope nat_scope.
@@ -40,6 +41,35 @@ Theorem C08_refill_schedule_independent count max script stream :
   res o = ROk (N.min count (offered script)) /\ data o = firstn (N.to_nat (N.min count (offered script))) stream.
 Proof. exact (read_n_benign count max script stream). Qed.
 
+(* ---- the same pump at memory level (hcobs/GeoChunker.v over the geometry-faithful arena of iovec/Geo.v) ----
+   The carried-over bytes and every Data chunk are AnchoredSlices of the caller's arena.  One pump from any state that
+   meets the invariant (heap and cache well formed, carried slice inside the chunk its anchor holds) either panics in the
+   arena's capacity arithmetic (None) or: changes no byte that any in-bounds slice of the old memory reads (frame), keeps
+   the invariant, hands out a Data chunk that lies inside the chunk its own anchor holds, and returns exactly the chunk and
+   state of the value-level pump above. *)
+Theorem C08_geo_pump_refines bs h k s : CInv h k s ->
+  match gpump bs h k s with
+  | None => True
+  | Some (h', k', c, s') =>
+    frame h h' /\ length h <= length h' /\ CInv h' k' s' /\ chunk_ok h' c /\
+    pump bs (abs_st h s) = (abs_chunk h' c, abs_st h' s')
+  end.
+Proof. exact (gpump_refines bs h k s). Qed.
+
+(* a whole stream from a fresh arena: all chunks ever handed out, read in the FINAL memory (after every later refill),
+   are still inside the chunks their anchors hold and are exactly the value-level chunk sequence, to which C08_tiling
+   applies *)
+Theorem C08_geo_stream bs stream hf cs : gchunks_of bs stream = Some (hf, cs) ->
+  Forall (chunk_ok hf) cs /\ map (abs_chunk hf) cs = chunks_of bs stream.
+Proof. exact (gchunks_of_refines bs stream hf cs). Qed.
+
+Example C08_geo_example :
+  match gchunks_of 1 [1; 97; 254; 253; 2; 98; 99]%N with
+  | Some (hf, cs) => map (abs_chunk hf) cs = [Data 2 [1; 97]%N; Sentinel 4; Data 6 [2; 98]%N; Data 7 [99]%N; Eof]
+  | None => False
+  end.
+Proof. vm_compute. reflexivity. Qed.
+
 (* non-vacuity: block size 1 on the stream of finding F1 (fixed by bd69bab): both sentinels reported *)
 Example C08_example_block1 :
   chunks_of 1 [1; 97; 254; 253; 2; 98; 99]%N =
@@ -52,3 +82,5 @@ Print Assumptions C08_tiling.
 Print Assumptions C08_sentinels_complete.
 Print Assumptions C08_pump_spec.
 Print Assumptions C08_refill_schedule_independent.
+Print Assumptions C08_geo_pump_refines.
+Print Assumptions C08_geo_stream.
